@@ -199,11 +199,11 @@ pub fn dense_pool(full: bool) -> Vec<Value> {
     }
     // decimals: mantissa edges × scale edges, both signs
     let mants: &[i128] = if full {
-        &[1, 5, 10, (1 << 32) - 1, 1 << 32, (1 << 64) - 1, 1 << 64, (1 << 64) + 1, (1 << 95), (1 << 96) - 2, (1 << 96) - 1, 39614081257132168796771975168, 7922816251426433759354395033]
+        &[1, 2, 5, 10, (1 << 31) - 1, 1 << 31, (1 << 32) - 1, 1 << 32, (1 << 53), (1 << 63) - 1, 1 << 63, (1 << 63) + 1, (1 << 64) - 1, 1 << 64, (1 << 64) + 1, (1 << 95), (1 << 96) - 2, (1 << 96) - 1, 39614081257132168796771975168, 7922816251426433759354395033]
     } else {
-        &[1, 5, (1 << 64) - 1, 1 << 64, (1 << 96) - 1, 7922816251426433759354395033]
+        &[1, 2, 5, (1 << 63) - 1, 1 << 63, (1 << 64) - 1, 1 << 64, (1 << 96) - 1, 7922816251426433759354395033]
     };
-    let scales: &[u32] = if full { &[0, 1, 2, 14, 27, 28] } else { &[0, 1, 28] };
+    let scales: &[u32] = if full { &[0, 1, 2, 14, 27, 28] } else { &[0, 2, 28] };
     for m in mants {
         for sc in scales {
             p.push(d(*m, *sc));
